@@ -118,3 +118,37 @@ def shaped_formula(q, kind, rng):
 
 
 SHAPES = ["sum", "single", "exp", "negexp", "square0", "negsquare0", "gauss", "prod", "sqrt"]
+
+
+def build_formula(q, case, meas):
+    """exprgen.build_impl with the measurement objects supplied by the caller (so that some of
+    them can be repeated measurements); returns the object per node"""
+    objs = []
+    for n in case["nodes"]:
+        t = n[0]
+        if t == "var":
+            objs.append(meas[n[1]])
+        elif t == "const":
+            c = unbits(n[1])
+            objs.append(int(c) if c.is_integer() and abs(c) < 100 and (n[1] % 3 == 0) else c)
+        elif t == "un":
+            op, a = n[1], objs[n[2]]
+            if op == "neg":
+                objs.append(-a)
+            elif op == "ln":
+                objs.append(q.log(a))
+            else:
+                objs.append(getattr(q, op)(a))
+        elif t == "deg":
+            objs.append(getattr(q, n[1])(objs[n[2]]))
+        elif t == "bin":
+            op, a, b = n[1], objs[n[2]], objs[n[3]]
+            if op == "log":
+                objs.append(q.log(a, b))
+            else:
+                objs.append(exprgen.PYOPS[op](a, b))
+        else:
+            raise ValueError(t)
+    for i, j, r in case["rho"]:
+        q.set_correlation(meas[i], meas[j], unbits(r))
+    return objs
